@@ -59,6 +59,9 @@ type closeObs struct {
 }
 
 // watchClose reads until the connection ends or until `until`; returns what the client saw.
+var c06TypeSeq int64
+var c06OddTypes = []byte{5, 0, 2, 6, 0xff, 5, 0x7f, 0x80}
+
 func watchClose(cl *SSClient, until time.Time) closeObs {
 	o := closeObs{}
 	buf := make([]byte, 4096)
@@ -283,8 +286,14 @@ func c06AuthThenInvalid(c *vk.Ctx, r *rand.Rand, rg *c06Rig, hub *TargetHub, cla
 		first[len(first)-1-r.Intn(16)] ^= 0x01
 		wire = first
 	case "unparseable-address-type":
-		if r.Intn(2) == 0 {
+		if n := atomic.AddInt64(&c06TypeSeq, 1); n%3 == 0 {
 			wire = enc.Chunk(append([]byte{byte(5 + r.Intn(250))}, randBytes(r, 20)...), -1)
+		} else if n%3 == 1 {
+			// the values next to the three known types, in turn (5 is the first byte of a SOCKS5 greeting,
+			// 2 the BIND command, 0 and 0xff the ends of the range): every one of them is drained alike
+			t := c06OddTypes[int(n/3)%len(c06OddTypes)]
+			wire = enc.Chunk(append([]byte{t}, randBytes(r, 20)...), -1)
+			class = "address-type-next-to-known"
 		} else {
 			// a valid type with flag bits set in the high nibble (0x10 was the one-time-auth flag of the old
 			// protocol) in front of a perfectly formed address: still not an address type the server knows
